@@ -19,6 +19,7 @@ Definition model_at (h : histcase) (i : nat) :=
     | Some ((Some c, _), w0) =>
       match client_at (c, store_of w0) steps (i - 1) with
       | Some ((c, m), s) =>
+        let m := match so_store s with Some m' => m' | None => m end in
         match step c (so_op s) (tapes_of (so_evs s) (map_world m)) with
         | Some ((c', r), w) => Some (rev (w_log w), r, sort_done (k_done c'), sort_xev (k_xev c'), k_online c', (t_stf w, t_dial w, t_wr w, t_rd w))
         | None => None
